@@ -504,33 +504,4 @@ Definition serde_shapes (ev : event) (st : state) : bool :=
   | _ => false
   end.
 
-(** [type_alias]: ruma reads the keys of [events] as its event-type enum, which maps the
-    pre-standard name [org.matrix.call.sdp_stream_metadata_changed] to
-    [m.call.sdp_stream_metadata_changed]; the rules compare event types as strings.  The class:
-    the alias occurs as a key of [events] in the current or in the new power-levels event, or
-    as the event's own type.  (The model compares strings, like the rules; on this class the
-    disagreement is between model and implementation and is matched by the finding's
-    case_regex.) *)
-Definition type_alias_name : str := s!"org.matrix.call.sdp_stream_metadata_changed".
-
-Definition has_alias_key (e : event) : bool :=
-  match lookup s!"events" (e_content e) with
-  | Some (JObj m) => existsb (fun kv => str_eqb (fst kv) type_alias_name) m
-  | _ => false
-  end.
-
-Definition type_alias (ev : event) (st : state) : bool :=
-  str_eqb (e_type ev) type_alias_name
-  || (str_eqb (e_type ev) t_power && has_alias_key ev)
-  || match st (t_power, []) with Some p => has_alias_key p | None => false end.
-
-Definition known_deviation (v : N) (ev : event) (st : state) : bool :=
-  pl_strict v ev || serde_shapes ev st || type_alias ev st.
-
-(** ** Well-formed inputs: what the identifier types of the [Event] trait guarantee for the
-    room version — in v1-v2 event ids have the form [$opaque:server]. *)
-Definition wf_inputsb (v : N) (ev : event) : bool :=
-  negb (v <=? 2) || match eid_server (e_id ev) with Some _ => true | None => false end.
-Definition wf_inputs (v : N) (ev : event) : Prop := wf_inputsb v ev = true.
-
 End Spec.
